@@ -197,11 +197,12 @@ func (sw *SprayAndWait) ReportFailure(bp BundleDescriptor, sender cla.Convergenc
 		return
 	}
 
-	metadata.remainingCopies = metadata.remainingCopies + 1
-
+	// Only a transmission for which a copy was taken gives a copy back. Otherwise, a failed
+	// direct delivery to the destination would increase the budget.
 	for i := 0; i < len(metadata.sent); i++ {
 		if metadata.sent[i] == sender.GetPeerEndpointID() {
 			metadata.sent = append(metadata.sent[:i], metadata.sent[i+1:]...)
+			metadata.remainingCopies = metadata.remainingCopies + 1
 			break
 		}
 	}
